@@ -288,9 +288,32 @@ def f_error_new(em, e, env, k):
     return em.expr(e.args[0], env, k)
 
 
-def wc_inner_fuel(env):
-    # std's bound for a write_all-style loop: every iteration consumes a script entry or the buffer
-    return "(S (length (con_script %s) + length %s))" % (env.get("raw").coq, env.get("buf").coq)
+def _cond_lists(x, env, acc):
+    """the one-segment paths of a loop condition that name a byte slice / list variable, in order"""
+    if isinstance(x, (list, tuple)):
+        for y in x:
+            _cond_lists(y, env, acc)
+    elif hasattr(x, "kind") and hasattr(x, "__dict__"):
+        if x.kind == "path" and len(x.segs) == 1:
+            v = env.get(x.segs[0])
+            if v is not None and v.ty[0] == "list" and x.segs[0] not in acc:
+                acc.append(x.segs[0])
+        for kk, vv in x.__dict__.items():
+            if kk != "kind":
+                _cond_lists(vv, env, acc)
+    return acc
+
+
+def wc_inner_fuel(env, cond=None):
+    # std's bound for a write_all-style loop: every iteration consumes a script entry or the buffer.  The buffer is the
+    # slice the loop condition tests (`while !buf.is_empty()`, whatever the local is called; the parameter `buf` of the
+    # function is a different, shorter or longer, thing); fuel is never trusted -- a loop that runs out answers None
+    names = _cond_lists(cond, env, []) if cond is not None else []
+    if len(names) != 1:
+        if env.get("buf") is None:
+            raise EmitError("write_all: the inner loop's condition names no single byte slice to bound it by")
+        names = ["buf"]
+    return "(S (length (con_script %s) + length %s))" % (env.get("raw").coq, env.get(names[0]).coq)
 
 
 WVOCAB = {
